@@ -34,6 +34,8 @@ import (
 //	""        genuine: the seat's operator signs the client's hash with the real signer
 //	"short"   last byte dropped      "long"  one byte appended     "empty"  no bytes
 //	"wrongkey" signed by another operator   "flip" one byte of r flipped
+//	"vflip" / "v01" / "v29": the genuine R || S with another recovery byte V: 27 <-> 28, V - 27
+//	(0 / 1, what go-ethereum's crypto.Sign returns), 29
 type signer struct {
 	Index uint8  `json:"i"`
 	Mut   string `json:"m,omitempty"`
@@ -79,6 +81,10 @@ type input struct {
 	Operating u8s // as passed to AssembleDKGResult
 	Misbehav  u8s // as passed
 	Signers   []signer
+	// the signatures pass through the receiving member's check before they enter the map, as in
+	// tecdsa/dkg verifyDKGResultSignatures / protocol/inactivity: a signature that
+	// dkgResultSigner.VerifySignature (inactivityClaimSigner.VerifySignature) refuses is dropped
+	Filter bool `json:",omitempty"`
 
 	// claims
 	Nonce     string  // decimal
@@ -319,6 +325,27 @@ func (in *input) pub() *ecdsa.PublicKey {
 	return &ecdsa.PublicKey{Curve: tecdsa.Curve, X: hexBig(in.KeyX), Y: hexBig(in.KeyY)}
 }
 
+// seatChain is the chain handle of the operator of a seat (nil when the seat does not exist).
+func (w *world) seatChain(in *input, seat int) *ethereum.TbtcChain {
+	if seat < 1 || seat > len(in.Members) {
+		return nil
+	}
+	return w.chains[in.Members[seat-1]]
+}
+
+// receiver is the member that verifies the others' signatures: the submitter when it exists.
+func (w *world) receiver(in *input) *ethereum.TbtcChain {
+	if c := w.seatChain(in, int(in.Submitter)); c != nil {
+		return c
+	}
+	for _, id := range in.Members {
+		if c := w.chains[id]; c != nil {
+			return c
+		}
+	}
+	return ethereum.VerifC40Chain(w.chainID, mustKey("01"))
+}
+
 // otherOperator picks an operator different from id (for "wrongkey").
 func (w *world) otherOperator(id uint32) uint32 {
 	ids := make([]uint32, 0, len(w.keys))
@@ -349,8 +376,33 @@ func mutate(sig []byte, mut string) []byte {
 		if len(s) > 5 {
 			s[5] ^= 0x40
 		}
+	case "vflip":
+		if len(s) == 65 {
+			s[64] = 27 + 28 - s[64]
+		}
+	case "v01":
+		if len(s) == 65 {
+			s[64] -= 27
+		}
+	case "v29":
+		if len(s) == 65 {
+			s[64] = 29
+		}
 	}
 	return s
+}
+
+func wrongV(mut string) bool { return mut == "vflip" || mut == "v01" || mut == "v29" }
+
+// wrongVSig is the structural signature of the supporter-wrong-v stream (nil for other cases).
+func wrongVSig(in *input, acceptedMut bool, sig map[string]interface{}) map[string]interface{} {
+	for _, s := range in.Signers {
+		if wrongV(s.Mut) {
+			sig["stream"], sig["accepted_by_client"] = "supporter-wrong-v", acceptedMut
+			break
+		}
+	}
+	return sig
 }
 
 // ------------------------------------------------------------------ DKG results
@@ -448,7 +500,10 @@ func runDkg(in *input, em *lib.Emitter, id string) {
 	}
 
 	sigs := map[group.MemberIndex][]byte{}
+	// genuine: every signature in the map was accepted by the receiving member's check
 	genuine := true
+	acceptedMut := false
+	var dropped []uint8
 	for _, s := range in.Signers {
 		seat := int(s.Index)
 		var opID uint32
@@ -460,9 +515,6 @@ func runDkg(in *input, em *lib.Emitter, id string) {
 				opID = m
 				break
 			}
-		}
-		if s.Mut != "" {
-			genuine = false
 		}
 		if s.Mut == "wrongkey" {
 			opID = w.otherOperator(opID)
@@ -498,7 +550,35 @@ func runDkg(in *input, em *lib.Emitter, id string) {
 			sig = make([]byte, 65)
 			genuine = false
 		}
-		sigs[s.Index] = mutate(sig, s.Mut)
+		sig = mutate(sig, s.Mut)
+		// the receiving member's check (dkg/protocol.go verifyDKGResultSignatures): the message
+		// carries the public key of the seat's operator (the network layer has matched it with the
+		// sender) and the signature must verify against it for the preferred result hash
+		accepted := false
+		if seatCh := w.seatChain(in, seat); seatCh != nil && hashOK {
+			var rh dkg.ResultSignatureHash
+			copy(rh[:], clientHash)
+			func() {
+				defer func() { recover() }()
+				okv, err := tbtc.VerifC40VerifyDkgResultSignature(w.receiver(in), in.Start,
+					&dkg.SignedResult{ResultHash: rh, Signature: append([]byte{}, sig...), PublicKey: seatCh.Signing().PublicKey()})
+				accepted = err == nil && okv
+			}()
+		}
+		if s.Mut == "" && ch != nil && hashOK && seat >= 1 && seat <= len(in.Members) && !accepted {
+			panic("a genuine signature does not verify")
+		}
+		if wrongV(s.Mut) {
+			acceptedMut = accepted
+		}
+		if !accepted {
+			if in.Filter {
+				dropped = append(dropped, s.Index)
+				continue
+			}
+			genuine = false
+		}
+		sigs[s.Index] = sig
 	}
 
 	// --- assembly (real code)
@@ -572,12 +652,15 @@ func runDkg(in *input, em *lib.Emitter, id string) {
 	outTerm := outcome
 	sid := sigIDs{}
 	for _, s := range in.Signers { // ids in the order of the input
-		sid.id(sigs[s.Index])
+		if b, ok := sigs[s.Index]; ok {
+			sid.id(b)
+		}
 	}
 	var mhPre, sigPre, ethPre []byte
 	mhOK, sigOK := false, false
 	var recovered []uint32
-	human := map[string]interface{}{"outcome": outcome, "error": errText, "clientHash": hex.EncodeToString(clientHash)}
+	human := map[string]interface{}{"outcome": outcome, "error": errText, "clientHash": hex.EncodeToString(clientHash),
+		"everySignatureAcceptedByClient": genuine, "droppedByReceiver": u8s(dropped)}
 	if res != nil {
 		abi := ethereum.VerifC40ConvertDkgResultToAbiType(res)
 		// the conversion must not change anything (indices become uint256)
@@ -617,7 +700,9 @@ func runDkg(in *input, em *lib.Emitter, id string) {
 	}
 	sigTerms := make([]string, 0, len(in.Signers))
 	for _, s := range in.Signers { // insertion order; a later duplicate index overwrote the earlier one
-		sigTerms = append(sigTerms, fmt.Sprintf("(%d, %s)", s.Index, sid.one(sigs[s.Index])))
+		if b, ok := sigs[s.Index]; ok {
+			sigTerms = append(sigTerms, fmt.Sprintf("(%d, %s)", s.Index, sid.one(b)))
+		}
 	}
 	// the bytes the client is expected to have hashed (only to be able to compare its hash):
 	// chain id, 04-less Marshal, misbehaved as given but sorted, int64(start) as a 256-bit word
@@ -669,8 +754,8 @@ func runDkg(in *input, em *lib.Emitter, id string) {
 	em.Case(lib.Case{
 		ID: id, Coq: coq, Key: keyOf(in),
 		Nontrivial: len(in.Misbehav) >= 1 && len(in.Signers) >= 2,
-		Sig: map[string]interface{}{"kind": "dkg", "path": path, "outcome": outcome, "genuine": genuine,
-			"misbehaved": len(in.Misbehav) > 0},
+		Sig: wrongVSig(in, acceptedMut, map[string]interface{}{"kind": "dkg", "path": path, "outcome": outcome,
+			"genuine": genuine, "misbehaved": len(in.Misbehav) > 0}),
 		In: in, Out: human,
 	})
 }
@@ -747,6 +832,9 @@ func runClaim(in *input, em *lib.Emitter, id string) {
 	}()
 
 	sigs := map[group.MemberIndex][]byte{}
+	// allAccepted: every signature in the map passed inactivityClaimSigner.VerifySignature
+	allAccepted, acceptedMut := true, false
+	var dropped []uint8
 	for _, s := range in.Signers {
 		var opID uint32
 		if int(s.Index) >= 1 && int(s.Index) <= len(in.Members) {
@@ -766,13 +854,42 @@ func runClaim(in *input, em *lib.Emitter, id string) {
 			}
 			sig = signed.Signature
 		}
-		sigs[s.Index] = mutate(sig, s.Mut)
+		sig = mutate(sig, s.Mut)
+		// the receiving member's check (protocol/inactivity member.go verifyInactivityClaimSignatures)
+		accepted := false
+		if seatCh := w.seatChain(in, int(s.Index)); seatCh != nil && hashOK {
+			var chash inactivity.ClaimHash
+			copy(chash[:], claimHash)
+			func() {
+				defer func() { recover() }()
+				okv, err := tbtc.VerifC40VerifyInactivityClaimSignature(any,
+					&inactivity.SignedClaimHash{ClaimHash: chash, Signature: append([]byte{}, sig...), PublicKey: seatCh.Signing().PublicKey()})
+				accepted = err == nil && okv
+			}()
+			if s.Mut == "" && !accepted {
+				panic("a genuine claim signature does not verify")
+			}
+		}
+		if wrongV(s.Mut) {
+			acceptedMut = accepted
+		}
+		if !accepted {
+			if in.Filter {
+				dropped = append(dropped, s.Index)
+				continue
+			}
+			allAccepted = false
+		}
+		sigs[s.Index] = sig
 	}
 
 	sid := sigIDs{}
 	for _, s := range in.Signers {
-		sid.id(sigs[s.Index])
+		if b, ok := sigs[s.Index]; ok {
+			sid.id(b)
+		}
 	}
+	var recovered []uint32
 	outcome, outTerm, errText := "", "", ""
 	var pre []byte
 	preOK := false
@@ -807,31 +924,42 @@ func runClaim(in *input, em *lib.Emitter, id string) {
 			pre = ownEncode(oUint(w.chainID), oUint(nonce), oBytes(walletPre), oArr(abi.InactiveMembersIndices),
 				oBool(abi.HeartbeatFailed))
 			preOK = hashOK && bytes.Equal(ethcrypto.Keccak256(pre), claimHash)
+			// EcdsaInactivity.verifyClaim I:140-150: every 65-byte slice is recovered under the
+			// CONTRACT's message hash
+			ethHash := ethcrypto.Keccak256(append(append([]byte{}, ethPrefix...), ethcrypto.Keccak256(pre)...))
+			for i := 0; i+65 <= len(abi.Signatures); i += 65 {
+				recovered = append(recovered, w.byAddr[ozRecover(ethHash, abi.Signatures[i:i+65])])
+			}
 		}
 		human["claim"] = map[string]interface{}{"inactive": nlistBig(abi.InactiveMembersIndices),
 			"heartbeatFailed": abi.HeartbeatFailed, "signing": nlistBig(abi.SigningMembersIndices),
-			"signaturesLen": len(abi.Signatures)}
+			"signaturesLen": len(abi.Signatures), "recoveredOperatorIDs": recovered}
 	}()
 	human["outcome"], human["error"], human["claimHash"] = outcome, errText, hex.EncodeToString(claimHash)
 	human["walletID"] = hex.EncodeToString(walletID[:])
+	human["everySignatureAcceptedByClient"], human["droppedByReceiver"] = allAccepted, u8s(dropped)
 
 	sigTerms := make([]string, 0, len(in.Signers))
 	for _, s := range in.Signers {
-		sigTerms = append(sigTerms, fmt.Sprintf("(%d, %s)", s.Index, sid.one(sigs[s.Index])))
+		if b, ok := sigs[s.Index]; ok {
+			sigTerms = append(sigTerms, fmt.Sprintf("(%d, %s)", s.Index, sid.one(b)))
+		}
 	}
 	coq := fmt.Sprintf("(CClaim %d {| c_chainid := %s; c_nonce := %s; c_x := 0x%s; c_y := 0x%s; c_raw := %s; "+
 		"c_hbf := %s; c_wallet := %s; c_sigs := [%s]; c_nmembers := %d; c_threshold := %d |} "+
-		"{| q_out := %s; q_hash_some := %s; q_pre := %s; q_ok := %s; q_wallet_pre := %s; q_wallet_ok := %s |})",
+		"{| q_out := %s; q_hash_some := %s; q_pre := %s; q_ok := %s; q_wallet_pre := %s; q_wallet_ok := %s; "+
+		"q_accepted := %s; q_members := %s; q_recovered := %s |})",
 		in.Threshold, w.chainID.String(), nonce.String(), hexOr0(in.KeyX), hexOr0(in.KeyY), nlist8(in.RawInact),
 		lib.Bool(in.Heartbeat), bterm(walletID[:]), strings.Join(sigTerms, ";"), in.NMembers, in.Quorum,
-		outTerm, lib.Bool(hashOK), bterm(pre), lib.Bool(preOK), bterm(walletPre), lib.Bool(walletOK))
+		outTerm, lib.Bool(hashOK), bterm(pre), lib.Bool(preOK), bterm(walletPre), lib.Bool(walletOK),
+		lib.Bool(allAccepted), nlist32(in.Members), nlist32(recovered))
 	em.Tally("claim-" + outcome)
 	if in.Heartbeat {
 		em.Tally("claim-heartbeat-failed")
 	}
 	em.Case(lib.Case{
 		ID: id, Coq: coq, Key: keyOf(in), Nontrivial: len(in.RawInact) >= 2 && len(in.Signers) >= 2,
-		Sig: map[string]interface{}{"kind": "claim", "outcome": outcome, "heartbeat": in.Heartbeat},
+		Sig: wrongVSig(in, acceptedMut, map[string]interface{}{"kind": "claim", "outcome": outcome, "heartbeat": in.Heartbeat}),
 		In:  in, Out: human,
 	})
 }
